@@ -64,6 +64,8 @@ def main():
     for m in ("SliceNote.tla", "SlicesProof.tla"):
         shutil.copy(os.path.join(tlc.SPECS, m), pdir)
     pr = subprocess.run([tlapm, "--threads", "4", "--cleanfp", "SlicesProof.tla"], capture_output=True, text=True, timeout=1500, cwd=pdir)
+    if pr.returncode != 0:      # a loaded machine can make a back end time out: once more with longer time limits
+        pr = subprocess.run([tlapm, "--threads", "4", "--cleanfp", "--stretch", "8", "SlicesProof.tla"], capture_output=True, text=True, timeout=3000, cwd=pdir)
     m = re.search(r"All (\d+) obligations? proved", pr.stdout + pr.stderr)
     shutil.rmtree(pdir, ignore_errors=True)
     if pr.returncode != 0 or not m:
